@@ -157,6 +157,8 @@ def lit_from_text(text):
 def gen_literal(rng, max_digits=12, max_exp=30, allow_neg=True, allow_pct=True, integer=False):
     form = rng.random()
     nd = 1 if rng.random() < 0.35 else rng.randint(1, max_digits)
+    if rng.random() < 0.05:
+        nd = rng.randint(max_digits, max_digits * 4)        # a tail of long literals (chunked digit readers, bigint limb boundaries)
     digits = "".join(rng.choice("0123456789") for _ in range(nd))
     if rng.random() < 0.15:
         digits = "0" * rng.randint(1, 3) + digits
@@ -201,6 +203,8 @@ def gen_tree(rng, depth, max_digits=12, max_exp=30, ops="+-*/^", zero_bias=0.08)
 
 def gen_exponent(rng, depth):
     r = rng.random()
+    if r < 0.06:
+        return int_lit(rng.choice([-1, 1]) * rng.randint(9, 64))      # two-digit powers (the size guard of ev() skips what gets too big)
     if r < 0.7 or depth <= 0:
         return int_lit(rng.randint(-8, 8))
     # integer-valued subtree
